@@ -31,8 +31,8 @@ EXTENDS SsaCore, Json
 
 CONSTANTS MaxRx, MaxSide, NT
 
-VARIABLES prog, safe, dt, x0, x, now, idx, rows, slot, pendq, fired, queued, delivered, imm, steps, pc, tau
-vars == <<prog, safe, dt, x0, x, now, idx, rows, slot, pendq, fired, queued, delivered, imm, steps, pc, tau>>
+VARIABLES prog, safe, dt, x0, x, now, idx, rows, slot, pendq, fired, queued, delivered, imm, steps, pc, tau, preload
+vars == <<prog, safe, dt, x0, x, now, idx, rows, slot, pendq, fired, queued, delivered, imm, steps, pc, tau, preload>>
 
 SeqsUpTo(n) == UNION {[1..k -> Sp] : k \in 0..n}
 KG == {I(2), R(1, 2), I(1), I(3)}
@@ -51,7 +51,7 @@ RhoGrid == {Zero, R(1, 2), I(1), R(3, 2), I(2), I(3), I(4)}
 Init == /\ prog = [decl |-> << >>, rx |-> << >>] /\ safe = FALSE /\ dt = One /\ x0 = [s \in Sp |-> 0] /\ x = x0
         /\ now = Zero /\ idx = 0 /\ rows = << >> /\ slot = 1
         /\ pendq = [k \in 1..MaxSlot |-> << >>] /\ fired = << >> /\ queued = << >> /\ delivered = << >> /\ imm = << >>
-        /\ steps = << >> /\ pc = "build" /\ tau = One
+        /\ steps = << >> /\ pc = "build" /\ tau = One /\ preload = << >>
 
 NewTau == tau' \in Pk(TauGrid)
 
@@ -65,15 +65,26 @@ AddRx == /\ pc = "build" /\ NRx(prog) < MaxRx
                          named |-> (Len(pr) % 2 = 1), unset |-> FALSE] IN
               /\ (RxBounded(rx) = TRUE)
               /\ prog' = [prog EXCEPT !.rx = Append(@, rx)]
-         /\ UNCHANGED <<safe, dt, x0, x, now, idx, rows, slot, pendq, fired, queued, delivered, imm, steps, pc, tau>>
+         /\ UNCHANGED <<safe, dt, x0, x, now, idx, rows, slot, pendq, fired, queued, delivered, imm, steps, pc, tau, preload>>
 
 Start == /\ pc = "build" /\ NRx(prog) >= 1
          /\ IF NRx(prog) = MaxRx THEN TRUE ELSE RandomElement(1..3) = 1
          /\ \E xx \in Pk([Sp -> 0..6]), d \in Pk({R(1, 2), I(1), R(1, 4)}), sf \in Pk(BOOLEAN) :
               x0' = xx /\ x' = xx /\ dt' = d /\ safe' = sf
-         /\ LET z == [r \in 1..NRx(prog) |-> 0] IN
-            /\ fired' = z /\ queued' = z /\ delivered' = z /\ imm' = z
-            /\ pendq' = [k \in 1..MaxSlot |-> z]
+         \* the queue handed to the simulator may already hold deliveries (a continued run, a queue pre-loaded by
+         \* the user): up to two pre-loaded entries <<slot, reaction, amount>>; they count as already "queued"
+         /\ \E np \in Pk(0..2), k1 \in Pk(1..NT), k2 \in Pk(1..NT), r1 \in Pk(1..NRx(prog)), r2 \in Pk(1..NRx(prog)), c1 \in Pk(1..2) :
+            LET z == [r \in 1..NRx(prog) |-> 0]
+                pl == IF np = 0 THEN << >> ELSE IF np = 1 THEN << <<k1, r1, c1>> >> ELSE << <<k1, r1, c1>>, <<k2, r2, 1>> >>
+                Load(k, r) == LET RECURSIVE S(_)
+                                  S(i) == IF i = 0 THEN 0 ELSE (IF pl[i][1] = k /\ pl[i][2] = r THEN pl[i][3] ELSE 0) + S(i - 1)
+                              IN S(Len(pl))
+            IN /\ fired' = z /\ delivered' = z /\ imm' = z
+               /\ pendq' = [k \in 1..MaxSlot |-> [r \in 1..NRx(prog) |-> Load(k, r)]]
+               /\ queued' = [r \in 1..NRx(prog) |-> LET RECURSIVE T(_)
+                                                          T(k) == IF k = 0 THEN 0 ELSE Load(k, r) + T(k - 1)
+                                                      IN T(NT)]
+               /\ preload' = pl
          /\ pc' = "run" /\ NewTau
          /\ UNCHANGED <<prog, now, idx, rows, slot, steps>>
 
@@ -118,7 +129,7 @@ IterQueueWins ==
     /\ slot' = slot + 1
     /\ steps' = Append(steps, [a |-> "queue", e |-> Draw, u |-> Zero, r |-> 0, dd |-> << >>, to |-> slot])
     /\ NewTau
-    /\ UNCHANGED <<prog, safe, dt, x0, fired, queued, imm, pc>>
+    /\ UNCHANGED <<prog, safe, dt, x0, fired, queued, imm, pc, preload>>
 
 IterSkip ==
     /\ Running /\ ~Tie /\ ~QueueWins /\ (L = Zero \/ Over)
@@ -126,7 +137,7 @@ IterSkip ==
     /\ rows' = Record(rows, idx, P1, x) /\ idx' = Len(rows')
     /\ steps' = Append(steps, [a |-> IF L = Zero THEN "absorb" ELSE "over", e |-> Draw, u |-> Zero, r |-> 0, dd |-> << >>, to |-> 0])
     /\ NewTau
-    /\ UNCHANGED <<prog, safe, dt, x0, x, slot, pendq, fired, queued, delivered, imm, pc>>
+    /\ UNCHANGED <<prog, safe, dt, x0, x, slot, pendq, fired, queued, delivered, imm, pc, preload>>
 
 \* ---- delay transforms: inputs -> (delay value, the uniforms the samplers consume)
 \* a uniform is encoded as <<kind, q>>: "u" the rational q itself, "expneg" exp(-q), "tiny" 10^-12
@@ -178,14 +189,14 @@ IterFire ==
                    /\ imm' = [imm EXCEPT ![r] = @ + 1] /\ UNCHANGED <<pendq, queued>>
            /\ steps' = Append(steps, [a |-> "fire", e |-> Draw, u |-> u, r |-> r, dd |-> DrawsOf(dl, ins), to |-> IF q THEN k ELSE 0])
     /\ NewTau
-    /\ UNCHANGED <<prog, safe, dt, x0, idx, rows, slot, delivered, pc>>
+    /\ UNCHANGED <<prog, safe, dt, x0, idx, rows, slot, delivered, pc, preload>>
 
 TieRedraw == /\ Running /\ Tie /\ NewTau
-             /\ UNCHANGED <<prog, safe, dt, x0, x, now, idx, rows, slot, pendq, fired, queued, delivered, imm, steps, pc>>
+             /\ UNCHANGED <<prog, safe, dt, x0, x, now, idx, rows, slot, pendq, fired, queued, delivered, imm, steps, pc, preload>>
 Abandon == /\ pc = "run" /\ idx < NT /\ ~Small /\ pc' = "abandoned"
-           /\ UNCHANGED <<prog, safe, dt, x0, x, now, idx, rows, slot, pendq, fired, queued, delivered, imm, steps, tau>>
+           /\ UNCHANGED <<prog, safe, dt, x0, x, now, idx, rows, slot, pendq, fired, queued, delivered, imm, steps, tau, preload>>
 Finish == /\ pc = "run" /\ idx = NT /\ pc' = "done"
-          /\ UNCHANGED <<prog, safe, dt, x0, x, now, idx, rows, slot, pendq, fired, queued, delivered, imm, steps, tau>>
+          /\ UNCHANGED <<prog, safe, dt, x0, x, now, idx, rows, slot, pendq, fired, queued, delivered, imm, steps, tau, preload>>
 
 Next == AddRx \/ Start \/ IterQueueWins \/ IterSkip \/ IterFire \/ TieRedraw \/ Abandon \/ Finish
 Spec == Init /\ [][Next]_vars
@@ -194,13 +205,17 @@ Spec == Init /\ [][Next]_vars
 Live == pc \in {"run", "done"}
 RECURSIVE PendTotal(_, _)
 PendTotal(r, k) == IF k = 0 THEN 0 ELSE pendq[k][r] + PendTotal(r, k - 1)
-\* (D1) nothing lost or duplicated: every firing is accounted for
+PreTotal(r) == LET RECURSIVE S(_)
+                   S(i) == IF i = 0 THEN 0 ELSE (IF preload[i][2] = r THEN preload[i][3] ELSE 0) + S(i - 1)
+               IN S(Len(preload))
+\* (D1) nothing lost or duplicated: every firing (and every pre-loaded entry) is accounted for
 Accounting == Live => \A r \in 1..NRx(prog) :
-                 /\ fired[r] = queued[r] + imm[r]
+                 /\ fired[r] + PreTotal(r) = queued[r] + imm[r]
                  /\ queued[r] = delivered[r] + PendTotal(r, MaxSlot)
 RECURSIVE SumImm(_)
 SumImm(r) == IF r = 0 THEN [s \in Sp |-> 0]
              ELSE AddVec(AddVec(ScaleVec(fired[r], Col(prog, r, FALSE)), ScaleVec(delivered[r] + imm[r], DCol(prog, r))), SumImm(r - 1))
+\* (a pre-loaded entry contributes its delayed column when delivered, and no immediate column)
 StateAccounting == Live => x = AddVec(x0, SumImm(NRx(prog)))
 \* pending entries only in slots not yet delivered
 PendingAhead == Live => \A k \in 1..MaxSlot : k < slot => \A r \in 1..NRx(prog) : pendq[k][r] = 0
@@ -208,6 +223,6 @@ PendingAhead == Live => \A k \in 1..MaxSlot : k < slot => \A r \in 1..NRx(prog) 
 ZeroDelayImmediate == [][\A r \in 1..Len(fired) : (fired'[r] = fired[r] + 1 /\ prog.rx[r].delay.type = "none") => imm'[r] = imm[r] + 1]_vars
 
 Emit == pc = "done" => PrintT(ToJson([prog |-> prog, ns |-> NS, safe |-> safe, dt |-> dt, nt |-> NT, x0 |-> x0, steps |-> steps,
-                                       rows |-> rows, pending |-> [k \in 1..NT |-> pendq[slot + k - 1]], slot |-> slot,
+                                       rows |-> rows, preload |-> preload, pending |-> [k \in 1..NT |-> pendq[slot + k - 1]], slot |-> slot,
                                        fired |-> fired, delivered |-> delivered]))
 =============================================================================
